@@ -20,7 +20,7 @@ _DICT_RT = Harness('''
 class MessageDictRoundTrip(Contract):
     key = 'C14.from_dict(dict(m))==m'
     target = 'mido.messages.messages:BaseMessage.dict'
-    properties = ('C14',)
+    properties = ('C14', 'C03')      # C03: the exported dictionary is a copy - editing it cannot change the message behind the checks
     configs = tuple({'type': t, 'time': tm} for t in S.ALL_TYPES for tm in ('int', 'real'))
     use = ('mido.messages.checks:check_data',)
     raises = {}
@@ -63,7 +63,7 @@ class MetaDictRoundTrip(Contract):
 
     def ensures(self, h, cfg, a, r):
         ok, d = r
-        return {'equal-to-original': eq(V(ok), True)}
+        return {'equal-to-original': eq(V(ok), True), 'dict-is-a-copy': d is not attrs_of(h.m)}
 
 
 from .c_meta import SSC as _SSC, _SeqSpecCheckLoop as _SSCL      # noqa: E402
